@@ -11,6 +11,7 @@ from the model's verdicts):
 -/
 import LndModel.Prelude.Lines
 import LndModel.C18.Model
+import LndModel.C18.SweeperDrv
 
 open LndModel LndModel.Lines LndModel.C18
 
@@ -124,6 +125,8 @@ structure St where
   nMaxPos : Nat := 0
   maxWidth : Nat := 0
   nReqTx : Nat := 0
+  /-- `kind=swp` cases (UtxoSweeper state machine). -/
+  swp : SweeperDrv.SwSt := {}
 
 def M : MulDiv := goMulF64
 
@@ -142,20 +145,23 @@ def startAbove (s : St) : Bool :=
     Only then, and only if that start was supplied by the caller and is above the ceiling, the
     line carries `start_gt_end=1` (known finding F-C18-start-above-ceiling).  The tag is per
     line: any other failure of the same clause in the same case is reported untagged. -/
-def monitor (s : St) (clause detail : String) (startCaused : Bool := false) : IO St := do
+def monitor (s : St) (clause detail : String) (startCaused : Bool := false)
+    (otherKnown : Bool := false) : IO St := do
   let sc := startCaused && startAbove s
   -- an ESTIMATED start above the ceiling exists only outside the property's domain
   if sc && !s.callerStart && !s.inDomain then return { s with nEstDropped := s.nEstDropped + 1 }
   let tagged := sc && s.callerStart
+  -- `otherKnown`: the line carries the tag of another known finding in its detail text
+  let known := tagged || otherKnown
   -- one report per clause, tag and case
-  let key := if tagged then clause ++ "#known" else clause
+  let key := if known then clause ++ "#known" else clause
   if s.fired.contains key then return s
-  -- print caps are separate for lines of the known finding and for all others, so that a flood
+  -- print caps are separate for lines of the known findings and for all others, so that a flood
   -- of known-finding lines can never hide a new failure
-  let printed := if tagged then s.printedKnown else s.printedOther
+  let printed := if known then s.printedKnown else s.printedOther
   if printed < 300 then
     IO.println s!"MONITOR case={s.caseId} clause={clause} line={s.lines} start_gt_end={if tagged then 1 else 0} {detail}"
-  let s := if tagged then { s with printedKnown := s.printedKnown + 1 } else { s with printedOther := s.printedOther + 1 }
+  let s := if known then { s with printedKnown := s.printedKnown + 1 } else { s with printedOther := s.printedOther + 1 }
   return { s with monitorFails := s.monitorFails + 1, fired := key :: s.fired }
 
 def after (ws : List String) : List String :=
@@ -561,6 +567,7 @@ def step (s : St) (line : String) : IO St := do
       s := { s with pins := [], utxos := [], needBefore := none, tDeadline := (kvInt? rest "deadline").getD 0,
                     nTop := s.nTop + 1 }
     if kind == "ffraw" then s := { s with nRaw := s.nRaw + 1, inDomain := false }
+    if kind == "swp" then s := { s with swp := SweeperDrv.begin s.swp rest }
     if kind == "pub" then
       s := { s with prevMax := (kvInt? rest "prevmax").getD 0,
                     fromAgg := (kv? rest "from_agg").isSome || (kv? rest "from_topup").isSome }
@@ -733,6 +740,11 @@ def step (s : St) (line : String) : IO St := do
     let inDomain := decide (0 < s.relay) && decide (s.relay ≤ impl)
     return { s with inDomain := inDomain, ceilVal := impl, nUnjudged := s.nUnjudged + (if inDomain then 0 else 1) }
   | "op" :: k :: rest =>
+    if s.kind == "swp" then
+      match SweeperDrv.parseOp s.swp.noDl k rest with
+      | some op => return { s with swp := { s.swp with op := some op, opLine := s!"{line.take 200}" } }
+      | none => mismatch s s!"unparsed sweeper op: {line.take 80}"
+    else
     -- the rate the fee function will start with (needed to attribute failures of the tx lines
     -- that precede the `res` line): from the case header and the implementation's own ceiling
     let h := (kvInt? rest "height").getD 0
@@ -751,6 +763,7 @@ def step (s : St) (line : String) : IO St := do
                     opPub := ((parseList ((kv? rest "pub").getD "-")).head?.map parseAns).getD .ok,
                     opTxs := [] }
   | "tx" :: rest =>
+    if s.kind == "swp" then return { s with swp := SweeperDrv.onTx s.swp rest } else
     let t : TxLine := {
       published := (kv? rest "via") == some "publish"
       ins := (parseList ((kv? rest "ins").getD "-")).map (fun x => x.toInt?.getD (-1))
@@ -760,6 +773,19 @@ def step (s : St) (line : String) : IO St := do
       sumout := (kvInt? rest "sumout").getD 0 }
     let s ← monitorTx s t
     return { s with opTxs := t :: s.opTxs }
+  | "pubop" :: _ => return s
+  | "st" :: _ =>
+    let opw := words s.swp.opLine
+    let (sw0, mon0) := match s.swp.op with
+      | some op => SweeperDrv.onRealResult s.swp op ((kvInt? opw "fee").getD 0) ((kvNat? opw "rid").getD 0)
+      | none => (s.swp, [])
+    let s := { s with swp := sw0 }
+    let (sw, mm, mon) := SweeperDrv.onState s.swp (after ws)
+    let mon := mon0 ++ mon
+    let mut s := { s with swp := sw, ops := s.ops + 1, nontriv := s.nontriv + 1 }
+    for d in mm do s ← mismatch s d
+    for (clause, detail, tag) in mon do s ← monitor s clause detail false (tag == "known")
+    return s
   | "res" :: _ => pubRes s ws
   | "panic" :: _ => mismatch s s!"implementation panicked: {line.take 120}"
   | [] => return s
@@ -799,6 +825,18 @@ def main : IO Unit := do
   IO.println s!"STAT agg_input_sets={s.nSets}"
   IO.println s!"STAT agg_sets_with_previously_offered_member={s.nRegroupStart}"
   IO.println s!"STAT agg_inputs_filtered_out={s.nFiltered}"
+  IO.println s!"STAT sweeper_cases={s.swp.nCases}"
+  IO.println s!"STAT sweeper_ops={s.swp.nOps}"
+  IO.println s!"STAT sweeper_requests={s.swp.nReqs}"
+  IO.println s!"STAT sweeper_retry_requests={s.swp.nRetryReqs}"
+  IO.println s!"STAT sweeper_requests_with_wallet_inputs={s.swp.nTopUp}"
+  IO.println s!"STAT sweeper_offers_restarted_from_mempool_tx={s.swp.nRbf}"
+  IO.println s!"STAT sweeper_excluded_rows={s.swp.nExcluded}"
+  IO.println s!"STAT sweeper_failures_reporting_rate_zero={s.swp.nZeroRateFail}"
+  IO.println s!"STAT sweeper_cases_with_real_publisher={s.swp.nRealCases}"
+  IO.println s!"STAT sweeper_real_published_or_replaced={s.swp.nRealPublished}"
+  IO.println s!"STAT sweeper_real_failed={s.swp.nRealFailed}"
+  IO.println s!"STAT sweeper_real_same_set_published_again={s.swp.nRealRepublished}"
   IO.println s!"STAT pub_cases={s.nPub}"
   IO.println s!"STAT txs_seen={s.nTx}"
   IO.println s!"STAT txs_with_required_outputs={s.nReqTx}"
